@@ -112,6 +112,89 @@ def numeric_type_ok(x) -> bool:
 
 # ---- line coverage of anchored mechanisms (DESIGN.md §2.6) --------------------------------
 
+def aliasing_probe(ctx, m, key, rounds=1):
+    """What a long-lived program does with the objects it is handed: it keeps them under a second name and updates that
+    name with augmented assignment (x *= 2, total += reading), and it rounds or accumulates in place on quantities that the
+    library returned to it as new objects (.magnitude is a plain attribute).  Neither may change what the library itself
+    goes on using: the quantity a unit stands for (Unit.quantify()), the constants in measured.physics, and the operand
+    that was aliased.  Violations are reported under `key`; the conversions the calling check makes afterwards see the
+    damage as well."""
+    import copy as _copy
+    import operator as _op
+
+    Q, Unit, P = m.Quantity, m.Unit, m.Prefix
+    U, PN = Unit._by_name, P._by_name
+    units = []
+    for pn, un in (("kilo", "meter"), ("milli", "second"), ("kilo", "gram"), ("mebi", "bit"), (None, "hour"), (None, "foot"), ("kilo", "watt"), (None, "celsius")):
+        if un in U and (pn is None or pn in PN):
+            units.append(PN[pn] * U[un] if pn else U[un])
+    if "watt" in U and "hour" in U and "kilo" in PN:
+        units.append(PN["kilo"] * U["watt"] * U["hour"])
+    try:
+        import measured.physics as physics
+        constants = [(n, v) for n, v in sorted(vars(physics).items()) if isinstance(v, Q)]
+    except Exception:
+        constants = []
+
+    def same(q, mag, unit):
+        return q.unit is unit and type(q.magnitude) is type(mag) and (q.magnitude == mag or (q.magnitude != q.magnitude and mag != mag))
+
+    inplace = [("*=", _op.imul, 3), ("/=", _op.itruediv, 4), ("*=", _op.imul, 0.5), ("**=", _op.ipow, 2)]
+    for _ in range(rounds):
+        for label, subject in [(f"({u}).quantify()", u.quantify()) for u in units] + [(f"physics.{n}", v) for n, v in constants]:
+            mag0, unit0 = subject.magnitude, subject.unit
+            for sym, fn, k in inplace:
+                ctx.count("aliasing/augmented_assignments_on_an_alias")
+                alias = subject
+                try:
+                    alias = fn(alias, k)
+                except Exception:
+                    ctx.count("aliasing/augmented_assignment_refused")
+                    continue
+                if not same(subject, mag0, unit0):
+                    ctx.violation(f"{key}:object-handed-out-by-the-library-changed-through-an-alias", f"y = {label}; y {sym} {k} changed the object the library handed out: it was "
+                                  f"{mag0!r} {unit0}, it is {subject.magnitude!r} {subject.unit}", {"object": label, "operator": sym, "operand": k})
+                    subject.magnitude = mag0   # put it back: the calling check goes on with a sane library
+            for sym, fn in (("+=", _op.iadd), ("-=", _op.isub)):
+                ctx.count("aliasing/augmented_assignments_on_an_alias")
+                alias = subject
+                try:
+                    alias = fn(alias, Q(250, unit0))
+                except Exception:
+                    ctx.count("aliasing/augmented_assignment_refused")
+                    continue
+                if not same(subject, mag0, unit0):
+                    ctx.violation(f"{key}:object-handed-out-by-the-library-changed-through-an-alias", f"y = {label}; y {sym} 250 {unit0} changed the object the library handed "
+                                  f"out: it was {mag0!r}, it is {subject.magnitude!r}", {"object": label, "operator": sym})
+                    subject.magnitude = mag0
+        # quantities the library returned as results are the caller's own: rounding / accumulating on them in place must
+        # not reach anything the library still uses
+        for u in units:
+            std = u.quantify()
+            mag0, unit0 = std.magnitude, std.unit
+            results = []
+            for make in (lambda: Q(1, u).unprefixed(), lambda: Q(1.0, u).unprefixed(), lambda: Q(1, u).in_unit(u), lambda: Q(1, u).in_unit(unit0), lambda: Q(1, u) * 1,
+                         lambda: Q(1, u) + Q(0, u), lambda: _copy.copy(Q(1, u)), lambda: 1 * u, lambda: Q.parse(f"1 {u}") if str(u).isascii() else Q(1, u)):
+                try:
+                    results.append(make())
+                except Exception:
+                    ctx.count("aliasing/result_not_available")
+            for r in results:
+                ctx.count("aliasing/results_updated_in_place")
+                if r is std:
+                    ctx.violation(f"{key}:result-is-the-librarys-own-object", f"an operation on 1 {u} returned the very object Unit.quantify() keeps for {u}", {"unit": str(u)})
+                    continue
+                try:
+                    r.magnitude = r.magnitude * 3 + 1
+                except Exception:
+                    continue
+                now = u.quantify()
+                if not same(now, mag0, unit0):
+                    ctx.violation(f"{key}:object-handed-out-by-the-library-changed-through-an-alias", f"updating .magnitude of a quantity returned for 1 {u} changed what "
+                                  f"{u} stands for: {mag0!r} {unit0} became {now.magnitude!r} {now.unit}", {"unit": str(u)})
+                    now.magnitude = mag0
+
+
 def with_little_stack(fn, free):
     """fn() as a program would call it from deep inside its own recursion: only `free` interpreter frames are left.
     -> ("answered", value) | ("ran-out-of-stack", None) | ("raised", exception)"""
